@@ -174,11 +174,13 @@ CHECKS = {
         ],
     },
     "C17": {
-        "bounds": {"quick": "L001 trailing whitespace: all texts <= 4 bytes over {space tab \\n \\r a ' -}; L002 mixed indentation: <= 4 over {space tab \\n a '}; L003 blank lines: <= 5 over {\\n \\r space a '}; L005 redundant whitespace: <= 4 over {space a ' \\n - ,}; L007 keyword case (upper): <= 5 over {o r R space ' \"}; L008 comma placement (no auto-fix): <= 5 over {a , \\n space ' -}",
+        "bounds": {"quick": "L001 trailing whitespace: all texts <= 4 bytes over {space tab \\n \\r a ' -}; L002 mixed indentation: <= 4 over {space tab \\n a '}; L003 blank lines: <= 5 over {\\n \\r space a '}; L005 redundant whitespace: <= 4 over {space a ' \\n - ,}; L007 keyword case (upper): <= 5 over {o r R space ' \"}; L008 comma placement (no auto-fix): <= 5 over {a , \\n space ' -}; the lint --auto-fix flow (lint once with the CLI's ten rules, then every fixable rule's Fix in order with that run's violations) on every text of <= 3 lines drawn from 8 line shapes (blank, clean, doubled spaces, lower-case keywords with comma issues, tab / mixed indentation, trailing blanks, comment and string literal with doubled spaces), optional final newline: tokens and comments preserved, no violation of a fixed rule left (L007 judged by its own harness), second pass changes nothing",
                    "thorough": "L001 <= 5, L002 <= 6, L003 <= 7, L005 <= 5, L007 <= 6 (upper) and <= 5 (lower)"},
-        "outside": "the language server's format action (lsp.formatSQL) and the CLI lint --fix write-back; L004/L006/L009/L010 (no text rewrite); longer texts; the long-line rule",
+        "outside": "the language server's format action (lsp.formatSQL); the file write-back of lint --fix (C19); L004/L006/L009/L010 (no text rewrite); longer texts; the long-line rule",
         "assumptions": ["'same meaning' = same (kind, value) token sequence from the real tokenizer, keyword values compared case-insensitively, comment texts compared modulo trailing blanks; texts that do not tokenize are outside the claim"],
         "runs": [
+            {"pkg": "cmd/gosqlx/cmd", "harness": "VxC17_FixFlow3", "tiers": ["quick"], "expect_asserts": ["C17.flow.idempotent", "C17.flow.same_value"]},
+            {"pkg": "cmd/gosqlx/cmd", "harness": "VxC17_FixFlow4", "tiers": ["thorough"], "expect_asserts": ["C17.flow.idempotent"], "thorough": {"timeout": 7200}},
             {"pkg": "pkg/linter/rules/whitespace", "harness": "VxC17_L001_4", "tiers": ["quick"]},
             {"pkg": "pkg/linter/rules/whitespace", "harness": "VxC17_L002_4", "tiers": ["quick"]},
             {"pkg": "pkg/linter/rules/whitespace", "harness": "VxC17_L003_5", "tiers": ["quick"]},
